@@ -20,8 +20,13 @@
        is closed (Submitted ~> Succeeded \/ closed);
      * a job that succeeded is never run again; one job never runs twice at once;
      * once Close has taken effect no job is dequeued and no failed job is
-       queued again; the only runs that can still START are those of jobs a
-       worker had already dequeued (at most one per worker).
+       queued again; Close discards the queue atomically, so a job that was
+       QUEUED at Close never starts (QueuedAtCloseNeverStarts); the only runs
+       that can still START are those of jobs a worker had already removed from
+       the queue (at most one per worker);
+     * no lost wake-up: a queued job always has a worker about to look at the
+       queue (SomeoneWillLook) -- this rests on Wait checking "empty" and parking
+       in ONE critical section (AtomicWait).
    "Every job submitted before Close runs until success" in the absolute sense
    does not hold -- Close discards the queue ("Jobs will be lost after closing",
    dissolve.go) -- and cannot hold together with "nothing runs after Close"
@@ -33,7 +38,11 @@ CONSTANTS
   Workers,      \* e.g. {1, 2}
   Jobs,         \* e.g. {1, 2, 3}
   MaxFail,      \* failures per job
-  AllowClose    \* the closer exists
+  AllowClose,   \* the closer exists
+  AtomicWait    \* TRUE: queue.Wait as coded (closed / empty check and the park on the condition variable are ONE critical
+                \* section).  FALSE: a variant in which they are separate critical sections (check closed; try Remove; then lock
+                \* and park) -- kept to show what the design relies on: with it a Submit landing between the empty check and the
+                \* park is not signalled to anybody (lost wake-up, lostwake.cfg gives the counterexample)
 
 VARIABLES
   q, closed,
@@ -44,9 +53,10 @@ VARIABLES
   submitted,          \* jobs whose Submit returned success (ghost)
   fails, done,        \* per job: failed runs so far, succeeded
   lateStarts,         \* per worker: runs started after Close took effect (ghost)
+  discarded,          \* jobs that were in the queue when Close took effect: Close discards them atomically (ghost)
   step
 
-core == <<q, closed, wpc, wjob, spc, sjob, sres, cpc, submitted, fails, done, lateStarts>>
+core == <<q, closed, wpc, wjob, spc, sjob, sres, cpc, submitted, fails, done, lateStarts, discarded>>
 vars == <<core, step>>
 
 NoJob == 0
@@ -57,7 +67,7 @@ Init ==
   /\ spc = "idle" /\ sjob = NoJob /\ sres = FALSE
   /\ cpc = "idle"
   /\ submitted = {} /\ fails = [j \in Jobs |-> 0] /\ done = [j \in Jobs |-> FALSE]
-  /\ lateStarts = [w \in Workers |-> 0]
+  /\ lateStarts = [w \in Workers |-> 0] /\ discarded = {}
   /\ step = [act |-> "Init"]
 
 Blocked == {w \in Workers : wpc[w] = "blocked"}
@@ -70,7 +80,7 @@ Broadcast(pc) == [w \in Workers |-> IF pc[w] = "blocked" THEN "remove" ELSE pc[w
 (* Submit *)
 S_Begin(j) ==
   /\ spc = "idle" /\ spc' = "add" /\ sjob' = j
-  /\ UNCHANGED <<q, closed, wpc, wjob, sres, cpc, submitted, fails, done, lateStarts>>
+  /\ UNCHANGED <<q, closed, wpc, wjob, sres, cpc, submitted, fails, done, lateStarts, discarded>>
   /\ step' = [act |-> "SubB", j |-> j]
 
 S_Add ==
@@ -79,21 +89,38 @@ S_Add ==
        THEN sres' = FALSE /\ UNCHANGED <<q, wpc, submitted>>
        ELSE /\ sres' = TRUE /\ q' = Append(q, sjob) /\ submitted' = submitted \cup {sjob}
             /\ wpc' \in Signal(wpc)
-  /\ UNCHANGED <<closed, wjob, sjob, cpc, fails, done, lateStarts>>
+  /\ UNCHANGED <<closed, wjob, sjob, cpc, fails, done, lateStarts, discarded>>
   /\ step' = [act |-> "S_Add"]
 
 S_End ==
   /\ spc = "ret" /\ spc' = "idle" /\ sjob' = NoJob /\ sres' = FALSE
-  /\ UNCHANGED <<q, closed, wpc, wjob, cpc, submitted, fails, done, lateStarts>>
+  /\ UNCHANGED <<q, closed, wpc, wjob, cpc, submitted, fails, done, lateStarts, discarded>>
   /\ step' = [act |-> "SubE", j |-> sjob, ok |-> sres]
 
 ---------------------------------------------------------------------------
 (* workers *)
 W_Wait(w) ==
   /\ wpc[w] = "wait"
-  /\ wpc' = [wpc EXCEPT ![w] = IF closed THEN "chk" ELSE IF q # <<>> THEN "remove" ELSE "blocked"]
-  /\ UNCHANGED <<q, closed, wjob, spc, sjob, sres, cpc, submitted, fails, done, lateStarts>>
+  /\ wpc' = [wpc EXCEPT ![w] = IF closed THEN "chk"
+                                ELSE IF AtomicWait THEN (IF q # <<>> THEN "remove" ELSE "blocked")
+                                ELSE "tryremove"]
+  /\ UNCHANGED <<q, closed, wjob, spc, sjob, sres, cpc, submitted, fails, done, lateStarts, discarded>>
   /\ step' = [act |-> "W_Wait", w |-> w]
+
+\* only with AtomicWait = FALSE: the fast path "if job, ok := q.Remove(); ok { return }" in its own critical section ...
+W_TryRemove(w) ==
+  /\ wpc[w] = "tryremove"
+  /\ IF q = <<>>
+       THEN wpc' = [wpc EXCEPT ![w] = "parking"] /\ UNCHANGED <<q, wjob>>
+       ELSE wpc' = [wpc EXCEPT ![w] = "run"] /\ wjob' = [wjob EXCEPT ![w] = Head(q)] /\ q' = Tail(q)
+  /\ UNCHANGED <<closed, spc, sjob, sres, cpc, submitted, fails, done, lateStarts, discarded>>
+  /\ step' = [act |-> "W_TryRemove", w |-> w]
+\* ... and then "q.mu.Lock(); q.cond.Wait()" whatever happened in between
+W_Park(w) ==
+  /\ wpc[w] = "parking"
+  /\ wpc' = [wpc EXCEPT ![w] = "blocked"]
+  /\ UNCHANGED <<q, closed, wjob, spc, sjob, sres, cpc, submitted, fails, done, lateStarts, discarded>>
+  /\ step' = [act |-> "W_Park", w |-> w]
 
 \* queue.Remove(): cnt == 0 -> (nil, false)
 W_Remove(w) ==
@@ -101,21 +128,21 @@ W_Remove(w) ==
   /\ IF q = <<>>
        THEN wpc' = [wpc EXCEPT ![w] = "chk"] /\ UNCHANGED <<q, wjob>>
        ELSE wpc' = [wpc EXCEPT ![w] = "run"] /\ wjob' = [wjob EXCEPT ![w] = Head(q)] /\ q' = Tail(q)
-  /\ UNCHANGED <<closed, spc, sjob, sres, cpc, submitted, fails, done, lateStarts>>
+  /\ UNCHANGED <<closed, spc, sjob, sres, cpc, submitted, fails, done, lateStarts, discarded>>
   /\ step' = [act |-> "W_Remove", w |-> w, got |-> q # <<>>]
 
 \* if !ok { if d.queue.Closed() { break }; continue }
 W_Chk(w) ==
   /\ wpc[w] = "chk"
   /\ wpc' = [wpc EXCEPT ![w] = IF closed THEN "exit" ELSE "wait"]
-  /\ UNCHANGED <<q, closed, wjob, spc, sjob, sres, cpc, submitted, fails, done, lateStarts>>
+  /\ UNCHANGED <<q, closed, wjob, spc, sjob, sres, cpc, submitted, fails, done, lateStarts, discarded>>
   /\ step' = [act |-> "W_Chk", w |-> w]
 
 W_Start(w) ==
   /\ wpc[w] = "run"
   /\ wpc' = [wpc EXCEPT ![w] = "running"]
   /\ lateStarts' = [lateStarts EXCEPT ![w] = IF closed THEN @ + 1 ELSE @]
-  /\ UNCHANGED <<q, closed, wjob, spc, sjob, sres, cpc, submitted, fails, done>>
+  /\ UNCHANGED <<q, closed, wjob, spc, sjob, sres, cpc, submitted, fails, done, discarded>>
   /\ step' = [act |-> "Start", j |-> wjob[w], w |-> w]
 
 W_End(w, ok) ==
@@ -125,7 +152,7 @@ W_End(w, ok) ==
                 /\ wjob' = [wjob EXCEPT ![w] = NoJob] /\ UNCHANGED fails
            ELSE /\ fails' = [fails EXCEPT ![wjob[w]] = @ + 1] /\ wpc' = [wpc EXCEPT ![w] = "requeue"]
                 /\ UNCHANGED <<done, wjob>>
-  /\ UNCHANGED <<q, closed, spc, sjob, sres, cpc, submitted, lateStarts>>
+  /\ UNCHANGED <<q, closed, spc, sjob, sres, cpc, submitted, lateStarts, discarded>>
   /\ step' = [act |-> "End", j |-> wjob[w], ok |-> ok, w |-> w]
 
 \* d.queue.Add(job) -- the result is ignored: on a closed queue the job is dropped
@@ -136,31 +163,32 @@ W_Requeue(w) ==
        ELSE /\ q' = Append(q, wjob[w])
             /\ wpc' \in Signal([wpc EXCEPT ![w] = "wait"])
   /\ wjob' = [wjob EXCEPT ![w] = NoJob]
-  /\ UNCHANGED <<closed, spc, sjob, sres, cpc, submitted, fails, done, lateStarts>>
+  /\ UNCHANGED <<closed, spc, sjob, sres, cpc, submitted, fails, done, lateStarts, discarded>>
   /\ step' = [act |-> "W_Requeue", w |-> w, requeued |-> ~closed]
 
 ---------------------------------------------------------------------------
 (* Close *)
 C_Begin ==
   /\ AllowClose /\ cpc = "idle" /\ cpc' = "closing"
-  /\ UNCHANGED <<q, closed, wpc, wjob, spc, sjob, sres, submitted, fails, done, lateStarts>>
+  /\ UNCHANGED <<q, closed, wpc, wjob, spc, sjob, sres, submitted, fails, done, lateStarts, discarded>>
   /\ step' = [act |-> "CloseB"]
 
 C_Close ==
   /\ cpc = "closing" /\ cpc' = "ret"
   /\ closed' = TRUE /\ q' = <<>> /\ wpc' = Broadcast(wpc)
+  /\ discarded' = discarded \cup {q[i] : i \in 1..Len(q)}
   /\ UNCHANGED <<wjob, spc, sjob, sres, submitted, fails, done, lateStarts>>
   /\ step' = [act |-> "C_Close"]
 
 C_End ==
   /\ cpc = "ret" /\ cpc' = "done"
-  /\ UNCHANGED <<q, closed, wpc, wjob, spc, sjob, sres, submitted, fails, done, lateStarts>>
+  /\ UNCHANGED <<q, closed, wpc, wjob, spc, sjob, sres, submitted, fails, done, lateStarts, discarded>>
   /\ step' = [act |-> "CloseE"]
 
 ---------------------------------------------------------------------------
-WorkerStep(w) == W_Wait(w) \/ W_Remove(w) \/ W_Chk(w) \/ W_Start(w) \/ W_Requeue(w) \/ \E ok \in BOOLEAN : W_End(w, ok)
+WorkerStep(w) == W_Wait(w) \/ W_TryRemove(w) \/ W_Park(w) \/ W_Remove(w) \/ W_Chk(w) \/ W_Start(w) \/ W_Requeue(w) \/ \E ok \in BOOLEAN : W_End(w, ok)
 
-Silent == S_Add \/ C_Close \/ \E w \in Workers : W_Wait(w) \/ W_Remove(w) \/ W_Chk(w) \/ W_Requeue(w)
+Silent == S_Add \/ C_Close \/ \E w \in Workers : W_Wait(w) \/ W_TryRemove(w) \/ W_Park(w) \/ W_Remove(w) \/ W_Chk(w) \/ W_Requeue(w)
 
 Next ==
   \/ \E j \in Jobs : j \notin submitted /\ S_Begin(j)      \* every job is submitted once
@@ -203,6 +231,13 @@ FailedRequeued == [][ step'.act = "W_Requeue" => (step'.requeued = ~closed /\ (~
 \* after Close took effect: the queue stays empty, nothing is dequeued, a worker starts at most the job it already held
 ClosedQuiet ==
   closed => (q = <<>> /\ \A w \in Workers : lateStarts[w] <= 1)
+\* Close discards the queue ATOMICALLY: a job that was queued when Close took effect never starts afterwards.  (The
+\* only runs that may start after Close are of jobs a worker had already REMOVED from the queue: lateStarts, the known
+\* finding dissolve:job-started-after-close-returned.  A queued job running after Close is a different defect:
+\* dissolve:queued-jobs-run-after-close.)
+QueuedAtCloseNeverStarts == [][ step'.act = "Start" => step'.j \notin discarded ]_vars
+\* no lost wake-up: a queued job always has a worker that is going to look at the queue
+SomeoneWillLook == (~closed /\ q # <<>>) => \E w \in Workers : wpc[w] \notin {"blocked", "exit"}
 NoDequeueAfterClose == [][ (step'.act = "W_Remove" /\ closed) => ~step'.got ]_vars
 SubmitAnswer == [][ step'.act = "S_Add" => (sres' = ~closed) ]_vars
 
